@@ -119,9 +119,10 @@ class SimTree:
         plan.append(("leaf", prefix, (lt, k)))
         if optional:
             if len(segs) < 2:
-                return False  # "/?x": see D1
-            pt, pk = segs[-2]
-            pprefix = prefix[: len(prefix) - len(pt) - 1]
+                pt, pk, pprefix = "", "s", ""  # "/?x": the short form is "/"
+            else:
+                pt, pk = segs[-2]
+                pprefix = prefix[: len(prefix) - len(pt) - 1]
             leaves = self.leaf.get(pprefix, [])
             if any(pt == x for x, _ in leaves):
                 return False
@@ -139,7 +140,7 @@ def random_route_set(rng, menu, max_routes=4, max_segs=3):
     for _ in range(rng.randint(1, max_routes)):
         n = rng.randint(1, max_segs)
         segs = [seg_text(rng.choice(menu), j) for j in range(n)]
-        optional = n >= 2 and rng.random() < 0.25
+        optional = rng.random() < 0.25
         if not tree.add(segs, optional):
             continue
         texts.append("".join("/" + ("?" if optional and j == n - 1 else "") + t for j, (t, _) in enumerate(segs)))
@@ -169,6 +170,7 @@ CURATED_C01 = [
     ["/{x}/{m: **}", "/a/{y}", "/a/b/c"],
     ["/{d: /[0-9]+/}/{r: /a+/}", "/{d2: /[0-9]+/}/a", "/1/{z}"],
     ["/{r: /a+/}", "/{s: /a*b?/}", "/{t: /[ab]{2}/}"],
+    ["/?b", "/{x}"], ["/?{y}", "/a/{z}"], ["/?{m: **}"],
 ]
 
 CURATED_C02 = [
@@ -321,6 +323,7 @@ C09_PROGS = [
     (["R GET /a/{m: **}", "R GET /a/{x}", "R GET /a/b", "H 2 X-K=v", "H 1 Y-K=w"], "GET", 4),
     (["R GET /{r: /a+/}", "R GET /{x}", "H 0 X-K=v", "H 0 "], "GET", 3),
     (["R GET /{x}/{m: **}", "R GET /a/{y}/c", "H 1 X-K=v"], "GET", 5),
+    (["R GET /?p", "R POST /", "H 0 X-K=v"], "?", 2),
 ]
 
 
@@ -353,6 +356,7 @@ C10_PROGS = [
     (["R GET /a/b", "R POST /a/b", "R GET /a/{m: **}"], "?", 4),
     (["R GET /q/{x}", "R GET /q/r/?s", "H 1 X-K=v"], "GET", 6),
     (["R * /z", "R GET /{x}", "H 0 X-K=v", "H 0 "], "?", 2),
+    (["R GET /?r", "R GET /{x}/{y}"], "GET", 4),
 ]
 
 
@@ -561,4 +565,64 @@ SPECS["C11"] = Spec(
     ],
     bounds=lambda tier: {"nesting": 3, "statements": "9 template statements; per job a subset (mask) is symbolic, the others off", "handler_list_len": "0..2 (jobs with lens=1) else 1", "spare_capacity": "0 or 2 (symbolic)"},
     rule="every combination of statement guards, list lengths, capacity and AutoHead toggles of the template",
+)
+
+
+# --------------------------------------------------------------------------- C08
+C08_SEGS = ["N%d", "N%d", "{N%d}", "{N%d: /x+/}", "{N%d: /[0-9]/}-{N%d: /(y)/}", "{N%d: /[a-/}", "{N%d: /*/}", "{N%d: **}",
+            "{N%d: **, capture: 2}", "{**}", "", "{N%d: x}", "v{N%d}"]
+
+
+def c08_history(rng, nroutes=3, nslots=4):
+    texts = []
+    for _ in range(rng.randint(1, nroutes)):
+        n = rng.randint(1, 3)
+        opt = n - 1 if rng.random() < 0.3 else -1
+        if opt >= 0 and rng.random() < 0.15:
+            opt = rng.randrange(n)
+        t = ""
+        for j in range(n):
+            seg = rng.choice(C08_SEGS)
+            while "%d" in seg:
+                seg = seg.replace("%d", str(rng.randrange(nslots)), 1)
+            t += "/" + ("?" if j == opt else "") + seg
+        texts.append(t)
+    return texts
+
+
+C08_CURATED = [
+    ["/?N0"], ["/?"], ["/?{N0}"],                                     # D1
+    ["/{N0: /[0-9]/}-{N1: /x+/}"],                                    # D8 when N0 == N1
+    ["/N0/{N1}", "/N2/{N3}", "/N0/{N3}"],
+    ["/{N0}/{N1}/{N2}"], ["/{N0: **}/{N1: **}", "/{N0: **}/N2/{N3: **}"],
+    ["/N0/?{N1}", "/N0", "/N2"], ["/N0/{N1: **}", "/N0/?{N2: **}"], ["/N0/?{N1: **}", "/N0/{N1: **}"],
+    ["/N0//N1"], ["/N0/"], ["/"], ["/N0/?N1/N2"],
+    ["/{N0: **}/N1", "/{N2: **}/N1"], ["/{N0: **}/{N1: **}/N2"],
+    ["/{N0: /x+/}", "/{N1: /x+/}"], ["/{N0}", "/{N1}"],
+]
+
+
+def c08_jobs(tier, seed):
+    rng = random.Random(seed * 977 + 5)
+    jobs = []
+    for h in C08_CURATED:
+        jobs.append({"pkg_short": "route", "body": "VH_C08_register", "params": {"history": "\n".join(h), "slots": 4, "family": "curated"}})
+    for _ in range(60 if tier == "quick" else 600):
+        jobs.append({"pkg_short": "route", "body": "VH_C08_register",
+                     "params": {"history": "\n".join(c08_history(rng)), "slots": 4, "family": "seeded"}})
+    return jobs
+
+
+SPECS["C08"] = Spec(
+    "C08", ["route/parse.go", "route/oracle.go", "route/c08.go"], c08_jobs,
+    assumptions=[
+        "real AddRoute/addNextSegment/addSubtree/addLeaf/newTree/newLeaf/constructMatchStyleRegex/getParentBindSet/regexp.Compile executed on ASTs of the harness parser (validated natively against participle per route string)",
+        "every identifier (static literal, bind name) of a registration history is one symbolic byte in [a-d] shared per slot, so every equality pattern among up to 4 names is decided by the solver; regex texts and shapes are concrete per job",
+        "reference predicate mustReject written from the statement (plus: the short form of an optional route occupies a leaf position one level up; a match-all's identity at a leaf position includes its optional marker)",
+        "segments that are none of the four documented kinds are left out of the shapes; rejection of text outside the grammar is C06's, unknown methods are decided at router level (C07 runs with symbolic methods and this property's router jobs)",
+        "reachability of accepted routes by their own instances is decided by C01 (iff direction) on route sets of the same family",
+    ],
+    bounds=lambda tier: {"history": "<=3 routes x <=3 segments", "names": "4 slots, each any of a..d", "curated_histories": len(C08_CURATED),
+                         "seeded_histories": 60 if tier == "quick" else 600},
+    rule="one job per history shape; all assignments of names to slots",
 )
